@@ -2,10 +2,11 @@
 (* spec -> code.                                                                  *)
 (* GBSpec: every glyph sequence up to MaxLen; each state prints the sequence and,  *)
 (*   for every budget b = MAX - O in -BLow..BHigh, what the property allows:       *)
-(*   dis = the responder may be disabled, <<b, dis, lo, hi>>: lo..hi = allowed prefix lengths of the   *)
-(*   transmitted description when enabled (empty interval lo > hi: must be         *)
-(*   disabled).  Sharded by the first glyph (environment DISCOVERY_FIRST) so that  *)
-(*   several TLC processes can share the thorough enumeration.                     *)
+(*   <<b, dis, lo0, hi0, lo4, hi4>>: dis = the responder may be disabled, lo..hi =  *)
+(*   allowed prefix lengths of the transmitted description when enabled (empty     *)
+(*   interval lo > hi: must be disabled) for a widest port of 5 digits / 1 digit.  *)
+(*   Sharded by the first glyph (environment DISCOVERY_FIRST) so that several TLC  *)
+(*   processes can share the thorough enumeration.                                 *)
 (* GLSpec: every datagram class sequence up to Depth with the expected answers.    *)
 EXTENDS Discovery, Json
 CONSTANT Depth
@@ -19,9 +20,11 @@ Exp == LET n == Len(desc)
            f == [k \in 0 .. n |-> jc[k + 1]]
        IN [i \in 1 .. (BLow + BHigh + 1) |->
             LET m == O - BLow + i - 1
-                ks == AllowedKFast(f, n, O, m)
+                k0 == AllowedKFast(f, n, O, m, 0)
+                k4 == AllowedKFast(f, n, O, m, 4)
             IN <<m - O, MayDisable(O, m),
-                 IF ks = {} THEN 1 ELSE Min(ks), IF ks = {} THEN 0 ELSE Max(ks)>>]
+                 IF k0 = {} THEN 1 ELSE Min(k0), IF k0 = {} THEN 0 ELSE Max(k0),
+                 IF k4 = {} THEN 1 ELSE Min(k4), IF k4 = {} THEN 0 ELSE Max(k4)>>]
 
 GBInit == BInit /\ max = O /\ hist = <<>> /\ jc = <<0>>
 GBNext == \E g \in (IF desc = <<>> THEN First ELSE Glyphs) :
